@@ -28,6 +28,7 @@ package h2b
 import (
 	"encoding/binary"
 	"fmt"
+	"os"
 	"strings"
 	"testing"
 
@@ -302,6 +303,9 @@ func c37Run(rt tbx, rec *ev.Rec, p c37Pattern) {
 	serverClosed := false
 	probe := func() bool {
 		var cnt, zl int
+		if os.Getenv("H2B_C37_NO_SHIM") != "" { // development aid: exercise the black-box oracle alone
+			return true
+		}
 		if !r.onLoop(func() { cnt, zl = bfe_http2.VerifH2bQueued(r.sc) }) {
 			return false
 		}
